@@ -51,3 +51,7 @@ Definition run_table (c : option tree * list seg * list row) : J :=
       JL [J_tree r; JL (map J_row back); JB (negb touched); J_res (table_to_tree true None pat back)]
   | None => JErr "Error"
   end.
+
+(* tree_setitem(t, path, v, ignore): in place (no copy), new branches of the class of t *)
+Definition run_setitem (c : tree * list string * val * list val) : J :=
+  let '(t, p, v, ign) := c in J_tree (fst (setitem false (cls_of t) ign p v t)).
